@@ -79,7 +79,8 @@ def check_C09(tier, seed):
     engine.model_check(rep, 'MC_C09.tla', 'MC_C09.cfg', consts={'MaxLeaves': '3', 'MaxDepth': '1'}, deviations=['MutIfBoth'],
                        expect_violation=True, timeout=600)
     if not rep.machinery:
-        engine.replay_emitted(rep, _emitted(res), devs, sample=2000 if quick else 15000, seed=seed, what='TLC scenario')
+        engine.replay_emitted(rep, _emitted(res), devs, sample=2000 if quick else 15000, seed=seed, what='TLC scenario',
+                              always=lambda r: any(n in json.dumps(r['calls']) for n in ('"t5"', '"nn"', '"hl"')))
     scns = families.probe_programs(seed, 1500 if quick else 12000, depth=3 if quick else 4)
     cases = [c for c in vmrun.run_scenarios(scns) if 'harness_error' not in c]
     engine.judge_cases(rep, cases, devs, what='probe program')
